@@ -409,7 +409,7 @@ func Generate(seed uint64, opt GenOptions) *Scenario {
 		sc.Docs = append(sc.Docs, DocSpec{JSON: js, Number: useNumber && g.chance(0.7)})
 	}
 	for i, d := range poolDocs {
-		if wildOK && !poolDocSafe[i] {
+		if (wildOK && !poolDocSafe[i]) || d.NoEnum {
 			continue
 		}
 		for _, hg := range homeGroups {
@@ -425,7 +425,7 @@ func Generate(seed uint64, opt GenOptions) *Scenario {
 			continue
 		}
 		i := g.r.IntN(len(poolDocs))
-		if wildOK && !poolDocSafe[i] {
+		if (wildOK && !poolDocSafe[i]) || poolDocs[i].NoEnum {
 			continue
 		}
 		addDoc(poolDocs[i].JSON)
@@ -477,6 +477,8 @@ func Generate(seed uint64, opt GenOptions) *Scenario {
 				op.Kind = g.pick("scan", "unmarshal")
 				op.Path = g.r.IntN(len(sc.Paths))
 				op.Path2 = g.r.IntN(len(sc.Paths))
+			case n < 98:
+				op.Kind = "rekeyquery"
 			default:
 				op.Kind = "parsequery"
 			}
@@ -494,6 +496,7 @@ func Generate(seed uint64, opt GenOptions) *Scenario {
 				op.Silent = g.chance(silentShare)
 				op.TZ = g.chance(tzShare)
 				op.Zone = genZones[g.r.IntN(len(genZones))]
+				op.TZOuter = g.chance(0.3)
 				switch n := g.r.IntN(10); {
 				case n < 4:
 					op.Ctx = ""
@@ -506,7 +509,7 @@ func Generate(seed uint64, opt GenOptions) *Scenario {
 				case fCancel:
 					op.Ctx = g.pick("cause", "farcancel")
 				}
-				if g.chance(faultRate) {
+				if g.chance(faultRate) && op.Kind != "rekeyquery" {
 					f := &Fault{Err: "canceled"}
 					if (fPoll && g.chance(0.5)) || !fStep {
 						f.Model = "poll"
@@ -647,6 +650,7 @@ func TwinScenario(idx int, mode string) *Scenario {
 		if o.IsExec() {
 			o.TZ = true
 			o.Zone = zone
+			o.TZOuter = variant%4 == 1
 			o.Silent = (idx+variant)%3 == 0
 		}
 		switch kind {
@@ -662,7 +666,7 @@ func TwinScenario(idx int, mode string) *Scenario {
 	var lists [][]string
 	switch variant % 4 {
 	case 0:
-		l := []string{"query", "exists", "string", "first", "parse", "match", "marshal", "existsormatch", "ispredicate", "parsequery"}
+		l := []string{"query", "exists", "string", "first", "parse", "match", "marshal", "existsormatch", "ispredicate", "parsequery", "rekeyquery"}
 		lists = [][]string{l, l, l}
 	case 2:
 		l := []string{"string", "marshal", "ispredicate", "parse", "parsebad", "scan", "parsequery", "query", "exists", "first"}
